@@ -6,11 +6,12 @@ Reply: one line; `bad-op` for an unknown op or malformed arguments.  Core Lean o
 import FhVerif.Base.Bytes
 import Driver.OpsByteClass
 import Driver.OpsIntCodec
+import Driver.OpsPath
 
 open Fh Fh.Driver
 
 def handlers : List (String → List Bytes → Option String) :=
-  [opsByteClass, opsIntCodec]
+  [opsByteClass, opsIntCodec, opsPath]
 
 def dispatch (line : String) : String :=
   match (line.splitOn " ").filter (· ≠ "") with
